@@ -278,6 +278,13 @@ def run_adjacency(ctx, r, index):
                                                   'latin1', 'space']), 'O')
     S = gen.gen_ids(r, r.randint(1, 4), r.choice(['ascii', 'numeric',
                                                   'cjk']), 'S')
+    if r.random() < .3:
+        # ids with blanks at their edges are still ids (tab separated fields)
+        O = [(' ' + o) if k % 2 == 0 else o for k, o in enumerate(O)] + \
+            [O[0]]
+        S = [(s + ' ') if k % 2 == 1 else ('\u3000' + s)
+             for k, s in enumerate(S)]
+        O = list(dict.fromkeys(O))
     recs = []
     for _ in range(r.randint(1, 12)):
         v = r.choice([1, 2, 3.5, -1, 0.25, 1e-7, 5, 0, 0.0])
